@@ -448,3 +448,333 @@ def check_C04(run):
 
 
 CHECKS = {"C01": check_C01, "C02": check_C02, "C03": check_C03, "C04": check_C04, "C09": check_C09}
+
+
+# ============================================================================= C05
+
+def _dir_of(root, task, ts=None):
+    return os.path.join(str(root), "cond-out", M.out_dir_rel(task, ts))
+
+
+def _version_in_deps(entries, root, dep):
+    """the version timestamp with which experiment `dep` appears in a COND_DEPS list (or None)"""
+    base = _dir_of(root, dep) + "."
+    for e in entries:
+        if e.startswith(base):
+            try:
+                return int(e[len(base):])
+            except ValueError:
+                return e
+    return None
+
+
+def check_C05(run):
+    V, facts = [], {"nontrivial": [], "reach": {}}
+    tasks = run.scn["tasks"]
+    root = run.root
+    reach = facts["reach"]
+
+    def bump(k):
+        reach[k] = reach.get(k, 0) + 1
+
+    for i, st in enumerate(run.steps):
+        inv = st.inv
+        if inv is None or inv.killed or inv.deadlock is not None:
+            continue
+        kind = st.op["op"]
+        rows = st.before["rows"] if st.before and isinstance(st.before["rows"], list) else []
+        git = M.GitView(st.git, st.disable_git)
+        if kind == "where":
+            t = st.op["target"]
+            f = st.op.get("flags", {})
+            d = tasks[t]
+            expect = None
+            if d["kind"] == "exp":
+                sel = M.select_version(t, rows, git)
+                if sel is not None:
+                    expect = _dir_of(root, t, sel[1])
+                    bump("where_selected")
+                else:
+                    bump("where_none")
+            elif d["kind"] in ("cmd", "combine"):
+                expect = _dir_of(root, t)
+            if expect is not None and not os.path.relpath(expect, str(root / "cond-out")) in (st.before or {}).get("tree", {}) \
+                    and not f.get("nonexist"):
+                expect = None
+            got = inv.out.decode("utf-8", "replace").strip()
+            if expect is None:
+                if inv.code == 0:
+                    V.append(Violation("C05", "where-printed-a-location-for-a-task-without-one",
+                                       {"task": t, "got": got}, i))
+            else:
+                if f.get("project"):
+                    expect = os.path.relpath(expect, str(root))
+                if inv.code != 0 or got != expect:
+                    V.append(Violation("C05", "where-differs-from-documented-selection",
+                                       {"task": t, "got": got, "expected": expect, "code": inv.code,
+                                        "err": inv.err.decode("utf-8", "replace")[-300:]}, i))
+            facts["nontrivial"].append("where-" + d["kind"])
+            continue
+        if kind != "run":
+            continue
+        o = RunObs(run.scn, st)
+        flags = st.op.get("flags", {})
+        needed, cached, err = o.model_plan()
+        started = o.started_tasks()
+        if err:
+            bump("flagerr_" + err)
+            if inv.code == 0:
+                V.append(Violation("C05", "invalid-flag-combination-accepted:" + err, {"flags": flags}, i))
+            if started:
+                V.append(Violation("C05", "task-started-despite-flag-error:" + err, {"started": started}, i))
+            facts["nontrivial"].append("flagerr")
+            continue
+        if inv.internal is not None:
+            V.append(Violation("C05", "internal-error %s at %s" % (inv.internal[0], inv.internal[1]),
+                               {"internal": list(inv.internal)}, i))
+            continue
+        F, S = fail_skip_sets(o, needed)
+        exps_needed = {t for t in needed if tasks[t]["kind"] == "exp"} - S
+        exps_started = {t for t in started if t in tasks and tasks[t]["kind"] == "exp"}
+        mode = "again" if flags.get("again") else ("at-least" if (flags.get("at_least") is not None or flags.get("this_commit")) else "default")
+        for t in sorted(exps_started - exps_needed):
+            sel = M.select_version(t, rows, git)
+            V.append(Violation("C05", "experiment-rerun-although-compatible-version-exists (%s)" % mode,
+                               {"task": t, "selected": sel, "head": git.head}, i))
+        for t in sorted(exps_needed - exps_started):
+            sel = M.select_version(t, rows, git)
+            V.append(Violation("C05", "experiment-not-run-although-no-compatible-version (%s)" % mode,
+                               {"task": t, "selected": sel, "head": git.head,
+                                "rows": [r for r in rows if r[0] == t]}, i))
+        # dependents see the selected cached version
+        for sp in inv.spawns:
+            t = sp["task"]
+            if t not in tasks:
+                continue
+            entries = [e for e in sp["env"].get("COND_DEPS", "").split(":") if e]
+            for d in tasks[t]["deps"]:
+                if tasks[d]["kind"] != "exp" or d in exps_started:
+                    continue
+                sel = M.select_version(d, rows, git)
+                got = _version_in_deps(entries, root, d)
+                exp_ts = sel[1] if sel else None
+                if got != exp_ts:
+                    V.append(Violation("C05", "dependent-given-a-version-other-than-the-selected-one",
+                                       {"task": t, "dep": d, "got": got, "expected": exp_ts}, i))
+                else:
+                    bump("deps_selected_checked")
+        if git.uses_git and git.head:
+            # how interesting was the choice?
+            for t in tasks:
+                if tasks[t]["kind"] != "exp":
+                    continue
+                mine = [r for r in rows if r[0] == t]
+                if len(mine) >= 2:
+                    bump("choice_among_versions")
+                if any(r[2] is not None and not git.is_ancestor(r[2], git.head_hash) for r in mine):
+                    bump("non_ancestor_version_present")
+                if any(r[2] is None for r in mine) and any(r[2] is not None for r in mine):
+                    bump("mixed_null_and_commit_versions")
+        if needed or cached:
+            facts["nontrivial"].append("%s-n%d-c%d-%s" % (mode, len(needed), len(cached),
+                                                         "git" if git.uses_git and git.head else "nogit"))
+    return V, facts
+
+
+CHECKS["C05"] = check_C05
+
+
+# ============================================================================= C07
+
+def _render(v):
+    if isinstance(v, bool):
+        return "true" if v else "false"
+    return str(v)
+
+
+def check_C07(run):
+    V, facts = [], {"nontrivial": [], "reach": {}}
+    tasks = run.scn["tasks"]
+    root = str(run.root)
+    reach = facts["reach"]
+    for i, st in run_steps(run):
+        inv = st.inv
+        if inv.killed or not inv.spawns:
+            continue
+        o = RunObs(run.scn, st)
+        own_dir = {}
+        for sp in inv.spawns:
+            if sp["task"] in tasks and sp["env"].get("COND_OUT"):
+                own_dir.setdefault(sp["task"], sp["env"]["COND_OUT"])
+        seen_dep_dir = {}
+        for sp in inv.spawns:
+            t = sp["task"]
+            if t not in tasks:
+                V.append(Violation("C07", "spawned-command-is-not-a-task-command", {"argv": sp["argv"]}, i))
+                continue
+            d = tasks[t]
+            pkg, name = split_tid(t)
+            env = sp["env"]
+            # bash, -c, run + args + options
+            if sp["executable"] != ["/bin/bash"] or sp["argv"][:2] != ["/bin/bash", "-c"] or len(sp["argv"]) != 3:
+                V.append(Violation("C07", "task-not-run-under-bash", {"task": t, "argv": sp["argv"], "exe": sp["executable"]}, i))
+            try:
+                toks = shlex.split(sp["argv"][2])
+            except ValueError:
+                toks = None
+            exp_toks = ["sim", t] + [_render(a) for a in d.get("args", [])] + \
+                ["--%s=%s" % (k, _render(v)) for k, v in d.get("options", {}).items()]
+            if toks != exp_toks:
+                V.append(Violation("C07", "command-line-differs-from-run-args-options",
+                                   {"task": t, "got": toks, "expected": exp_toks}, i))
+            exp_cwd = os.path.normpath(os.path.join(root, pkg))
+            if sp["cwd"] is None or os.path.normpath(sp["cwd"]) != exp_cwd:
+                V.append(Violation("C07", "working-directory-is-not-the-cond-file-directory",
+                                   {"task": t, "got": sp["cwd"], "expected": exp_cwd}, i))
+            if env.get("COND_NAME") != name:
+                V.append(Violation("C07", "COND_NAME-wrong", {"task": t, "got": env.get("COND_NAME")}, i))
+            out = env.get("COND_OUT")
+            base = os.path.join(root, "cond-out", M.out_dir_rel(t))
+            ok_out = False
+            if out is not None and os.path.isabs(out):
+                if d["kind"] == "cmd":
+                    ok_out = (out == base)
+                else:
+                    ok_out = re.fullmatch(re.escape(base) + r"\.[1-9][0-9]*", out) is not None
+            if not ok_out:
+                V.append(Violation("C07", "COND_OUT-not-the-identifier-determined-directory",
+                                   {"task": t, "got": out, "expected_base": base}, i))
+            elif sp["listing"] is None:
+                V.append(Violation("C07", "COND_OUT-does-not-exist-at-spawn", {"task": t, "got": out}, i))
+            # COND_DEPS
+            raw = env.get("COND_DEPS")
+            entries = raw.split(":") if raw else []
+            expected = []
+            for dep in d["deps"]:
+                k = tasks[dep]["kind"]
+                if k == "group":
+                    continue
+                if k in ("cmd", "combine"):
+                    expected.append(os.path.join(root, "cond-out", M.out_dir_rel(dep)))
+                else:
+                    if dep in own_dir:
+                        expected.append(own_dir[dep])
+                    else:
+                        sel = M.select_version(dep, o.rows_before, o.git)
+                        if sel is not None:
+                            expected.append(os.path.join(root, "cond-out", M.out_dir_rel(dep, sel[1])))
+            if raw is None:
+                V.append(Violation("C07", "COND_DEPS-unset", {"task": t}, i))
+            elif entries != expected:
+                sig = "COND_DEPS-differs"
+                if sorted(entries) == sorted(expected):
+                    sig = "COND_DEPS-not-in-declared-order"
+                elif len(entries) == len(expected):
+                    sig = "COND_DEPS-lists-another-version-or-directory"
+                V.append(Violation("C07", sig, {"task": t, "got": entries, "expected": expected}, i))
+            for dep, e in zip([x for x in d["deps"] if tasks[x]["kind"] != "group"], entries):
+                if dep in seen_dep_dir and seen_dep_dir[dep] != e:
+                    V.append(Violation("C07", "dependents-see-different-versions-of-one-dependency",
+                                       {"dep": dep, "a": seen_dep_dir[dep], "b": e}, i))
+                seen_dep_dir.setdefault(dep, e)
+            if len(d["deps"]) >= 2:
+                reach["multi_dep_spawn"] = reach.get("multi_dep_spawn", 0) + 1
+            facts["nontrivial"].append("%s-d%d-a%d-o%d" % (d["kind"], len(expected), len(d.get("args", [])),
+                                                           len(d.get("options", {}))))
+        # inside the task: conductor.lib
+        spawn_by_name = {"%s#%d" % (sp["task"], sp["execno"]): sp for sp in inv.spawns}
+        for e in inv.trace:
+            if e[0] != "lib":
+                continue
+            sp = spawn_by_name.get(e[1])
+            if sp is None:
+                continue
+            res = e[2]
+            env = sp["env"]
+            raw = env.get("COND_DEPS", "")
+            want_deps = raw.split(":") if raw else []
+            if res.get("out") != env.get("COND_OUT"):
+                V.append(Violation("C07", "lib.get_output_path-differs-from-COND_OUT", {"got": res.get("out")}, i))
+            if res.get("deps") != want_deps:
+                sig = "lib.get_deps_paths-differs"
+                if not want_deps:
+                    sig = "lib.get_deps_paths-not-empty-for-task-without-dependencies"
+                V.append(Violation("C07", sig, {"got": res.get("deps"), "expected": want_deps}, i))
+            if res.get("in_out") != os.path.join(env.get("COND_OUT", ""), "sub/f.txt"):
+                V.append(Violation("C07", "lib.in_output_dir-differs", {"got": res.get("in_out")}, i))
+            reach["lib_evaluated"] = reach.get("lib_evaluated", 0) + 1
+    return V, facts
+
+
+CHECKS["C07"] = check_C07
+
+
+# ============================================================================= C08
+
+def _subtree(tree, rel):
+    pre = rel + "/"
+    return {k: v for k, v in tree.items() if k == rel or k.startswith(pre)}
+
+
+def check_C08(run):
+    V, facts = [], {"nontrivial": [], "reach": {}}
+    tasks = run.scn["tasks"]
+    root = str(run.root)
+    reach = facts["reach"]
+    for i, st in enumerate(run.steps):
+        inv = st.inv
+        if inv is None:
+            continue
+        kind = st.op["op"]
+        before, after = st.before, st.after
+        rows_b = before["rows"] if before and isinstance(before["rows"], list) else []
+        if kind == "run" and not inv.killed:
+            max_ts = max([r[1] for r in rows_b], default=0)
+            used = set()
+            for sp in inv.spawns:
+                t = sp["task"]
+                if t not in tasks or tasks[t]["kind"] != "exp":
+                    continue
+                out = sp["env"].get("COND_OUT", "")
+                m = re.search(r"\.task\.([0-9]+)$", out)
+                if not m:
+                    continue
+                ts = int(m.group(1))
+                rel = os.path.relpath(out, os.path.join(root, "cond-out"))
+                if ts <= max_ts:
+                    V.append(Violation("C08", "version-id-not-greater-than-recorded-versions",
+                                       {"task": t, "ts": ts, "max_recorded": max_ts}, i))
+                if rel in (before or {}).get("tree", {}):
+                    leftover = any(k != rel for k in _subtree(before["tree"], rel))
+                    V.append(Violation("C08", "output-directory-existed-before-the-execution" +
+                                       ("" if leftover else " (empty)"),
+                                       {"task": t, "dir": rel}, i))
+                elif sp["listing"] is not None:
+                    junk = [x for x in sp["listing"] if x[0] not in ("stdout.log", "stderr.log") or x[1] != 0]
+                    if junk:
+                        V.append(Violation("C08", "output-directory-not-empty-at-start", {"task": t, "junk": junk}, i))
+                if out in used:
+                    V.append(Violation("C08", "two-executions-share-one-output-directory", {"dir": rel}, i))
+                used.add(out)
+                if ts > sp["clock"] + 1:
+                    reach["version_id_ahead_of_clock"] = reach.get("version_id_ahead_of_clock", 0) + 1
+                facts["nontrivial"].append("spawn")
+        if kind in ("clean",) or before is None or after is None:
+            continue
+        # recorded version directories are never touched
+        changed = 0
+        for r in rows_b:
+            rel = M.out_dir_rel(r[0], r[1])
+            b = _subtree(before["tree"], rel)
+            a = _subtree(after["tree"], rel)
+            if b and a != b:
+                what = "deleted" if not a else "modified"
+                V.append(Violation("C08", "recorded-version-directory-%s-by-%s" % (what, kind),
+                                   {"dir": rel, "diff": sorted(set(a.items()) ^ set(b.items()))[:6]}, i))
+                changed += 1
+        if rows_b:
+            facts["nontrivial"].append("keep-%s" % kind)
+    return V, facts
+
+
+CHECKS["C08"] = check_C08
